@@ -97,6 +97,15 @@ def item_or_raise(x, tag=None):
         return ('r', x, tag)
     if x == 'POISON':
         raise ValueError('poison item')
+    if x == 'STUCK':
+        # never answers and swallows every exception thrown at it: only a forced terminate ends the worker (SIGTERM is not blocked)
+        end = time.monotonic() + 60
+        while time.monotonic() < end:
+            try:
+                time.sleep(0.02)
+            except Exception:
+                pass
+        return ('r', 'unstuck')
     if x == 'UNPICKLABLE':
         return NeedsArgs(1, 2)      # can be sent, cannot be rebuilt by the receiver (constructor needs two arguments)
     y = ('r', x)
